@@ -12,7 +12,7 @@ Exit 0 = parsed; 2 = an anchor no longer has the expected shape (tie for C10/C09
 import os, re, sys
 
 REPO = os.environ.get("VERIF_REPO", "/repo")
-OUT = sys.argv[1] if len(sys.argv) > 1 else "/verif/coq/Gen/ContainerLayouts.v"
+OUT = sys.argv[1] if len(sys.argv) > 1 else os.path.join(os.path.dirname(os.path.abspath(__file__)), "..", "coq", "Gen", "ContainerLayouts.v")
 PRIM = {"U8": "PU8", "I8": "PI8", "U16Be": "PU16", "I16Be": "PI16", "U24Be": "PU24",
         "U32Be": "PU32", "I32Be": "PI32", "U64Be": "PU64", "I64Be": "PI64"}
 METHOD = {"read_u8": "PU8", "read_i8": "PI8", "read_u16be": "PU16", "read_i16be": "PI16",
